@@ -31,7 +31,14 @@ clean
 if ! git -C $WT apply $S/patch.diff; then echo "PATCH DOES NOT APPLY on current HEAD"; clean; exit 3; fi
 FILES=$(git -C $WT diff --name-only | tr '\n' ' ')
 echo "== build of touched packages"; PK=$(for f in $FILES; do case $f in *.go) echo ./$(dirname $f);; esac; done | sort -u | tr '\n' ' ')
-go build $PK > /tmp/seed-$PID-$N.build.log 2>&1; RC_BUILD=$?; echo "   rc=$RC_BUILD ($PK)"
+RC_BUILD=0; : > /tmp/seed-$PID-$N.build.log
+for pk in $PK; do
+  case $pk in
+    ./lib/datastructures/*) (cd lib/datastructures && go build ./${pk#./lib/datastructures/}) >> /tmp/seed-$PID-$N.build.log 2>&1 || RC_BUILD=1;;
+    ./api/*) (cd api && go build ./${pk#./api/}) >> /tmp/seed-$PID-$N.build.log 2>&1 || RC_BUILD=1;;
+    *) go build $pk >> /tmp/seed-$PID-$N.build.log 2>&1 || RC_BUILD=1;;
+  esac
+done; echo "   rc=$RC_BUILD ($PK)"
 place_demo
 echo "== demo with patch"; bash -o pipefail -c "$DEMO" > /tmp/seed-$PID-$N.patched.log 2>&1; RC_PATCHED=$?
 echo "   rc=$RC_PATCHED"
